@@ -31,7 +31,7 @@ pub const DEF: CheckDef = CheckDef {
     id: "C16",
     run,
     technique: "deviation-bounded exhaustive enumeration of import configurations (all configurations with <= d non-default dimensions out of 13) x exhaustive enumeration of all statements of <= n rows over a configuration-dependent row alphabet x all same-day/next-day date patterns; each case is imported by the real code as a tree (import::import + Txn::to_double_entry) and as text (ImportCmd::run on real files), both compared posting by posting with a reference importer in exact rational arithmetic; for asset accounts with a running-balance column the printed text behind an opening transaction is run through report::process",
-    rule: "case = (configuration, statement). Configuration dimensions (default first): layout {index,label,template '{N}'} x delimiter {',',tab,';'} x skip.head {0,2} x date format {%Y/%m/%d,%Y-%m-%d,%d.%m.%Y} x value columns {amount, credit+debit} x commodity column {absent,present} x running-balance column {present,absent} x note column {absent,present} x charge column {absent,present} x account-level default conversion {none (no secondary_commodity column), rate/secondary_amount/secondary_commodity columns with no commodity.conversion (built-in price_of_secondary/extract), price_of_secondary/compute, price_of_primary/extract, price_of_primary/compute, disabled: true, built-in modes + `commodity: GBP` (a commodity no statement cell shows)} x rewrite-rule conversion on payee ^xfer {no rule, price_of_secondary/compute, price_of_primary/extract, disabled: true, price_of_primary/extract + `commodity: GBP`; the rule names the commodity itself when there is no secondary_commodity column} x account type {asset, liability} x row_order {old_to_new,new_to_old} (row_order is dimension 11, the rule dimension 12); ALL configurations with <= 2 (thorough <= 3) non-default dimensions. Statement: ALL sequences of <= 3 rows (thorough: <= 4 rows for configurations with <= 1 non-default dimension) over the alphabet {credit, debit, zero} + per present column {debit with empty balance cell, debit with a wrong balance; credit/debit in the other currency; credit/debit rows carrying the secondary cells (decided by the account default); credit/debit rows carrying the secondary cells AND matched by the rule (decided by the rule, over the default if any); a matched debit without secondary cells when the rule disables conversion; a matched conversion debit whose secondary-commodity cell is empty when the rule names the commodity; an unmatched debit with cells when there is no default; credit/debit with a charge; other-currency conversion debit; conversion debit with a charge} x EVERY assignment of same-day/next-day to rows 2..n; rows are written newest first when row_order=new_to_old. PLUS date-less lines: for every configuration with <= 1 non-default dimension, and with 2 when one of them is row_order=new_to_old (thorough: every configuration with <= 2), ALL statements over {credit, debit} of the same length bound x all date patterns x ALL placements of one date-less line (all cells empty | only the payee cell filled) at any of the n+1 file positions, or two (empty then payee-only) at any positions g1 <= g2; such lines must produce no transaction and leave every dated row imported, oldest first, with the end-to-end clause unchanged. states = cases, transitions = transactions compared with RefImport (tree + text), validated = cases in which every judged value had exactly one acceptable answer",
+    rule: "case = (configuration, statement). Configuration dimensions (default first): layout {index,label,template '{N}'} x delimiter {',',tab,';'} x skip.head {0,2} x date format {%Y/%m/%d,%Y-%m-%d,%d.%m.%Y} x value columns {amount, credit+debit} x commodity column {absent,present} x running-balance column {present,absent} x note column {absent,present} x charge column {absent,present} x account-level default conversion {none (no secondary_commodity column), rate/secondary_amount/secondary_commodity columns with no commodity.conversion (built-in price_of_secondary/extract), price_of_secondary/compute, price_of_primary/extract, price_of_primary/compute, disabled: true, built-in modes + `commodity: GBP` (a commodity no statement cell shows)} x rewrite-rule conversion on payee ^xfer {no rule, price_of_secondary/compute, price_of_primary/extract, disabled: true, price_of_primary/extract + `commodity: GBP`; the rule names the commodity itself when there is no secondary_commodity column} x account type {asset, liability} x row_order {old_to_new,new_to_old} (row_order is dimension 11, the rule dimension 12); ALL configurations with <= 2 (thorough <= 3) non-default dimensions. Statement: ALL sequences of <= 3 rows (thorough: <= 4 rows for configurations with <= 1 non-default dimension) over the alphabet {credit, debit, zero} + per present column {debit with empty balance cell, debit with a wrong balance; credit/debit in the other currency; credit/debit rows carrying the secondary cells (decided by the account default); credit/debit rows carrying the secondary cells AND matched by the rule (decided by the rule, over the default if any); a matched debit without secondary cells when the rule disables conversion; a matched conversion debit whose secondary-commodity cell is empty when the rule names the commodity; an unmatched debit with cells when there is no default; credit/debit with a charge; other-currency conversion debit; conversion debit with a charge} x EVERY assignment of same-day/next-day to rows 2..n; rows are written newest first when row_order=new_to_old. PLUS date-less lines: for every configuration with <= 1 non-default dimension, and with 2 when one of them is row_order=new_to_old (thorough: every configuration with <= 2), ALL statements over {credit, debit} of the same length bound x all date patterns x ALL placements of one date-less line (all cells empty | only the payee cell filled) at any of the n+1 file positions, or two (empty then payee-only) at any positions g1 <= g2; such lines must produce no transaction and leave every dated row imported, oldest first, with the end-to-end clause unchanged. PLUS nested configuration fragments: for every configuration with <= 1 non-default dimension (thorough <= 2) the same configuration written as 2 documents (ALL 3^4 assignments of {outer, inner, both} to account_type, commodity, account, format; where both set it the outer carries a wrong value) and as 3 documents (all assignments of the 7 non-empty level sets in which <= 1 (thorough <= 2) attribute differs from innermost-only), always preceded by a non-matching document of wrong values, documents listed most specific first x every one-row statement of the alphabet. PLUS rewrite-rule lists: ALL lists of 2 rules over matcher {^xfer, ^nomatch} x conversion {unset, sec/compute, pri/extract, disabled} x account {unset, set} (256) and ALL lists of 3 rules over matcher x conversion (512), with no account default and with the built-in one (thorough: all 7 defaults) x 4 statements of matched / unmatched rows carrying the secondary cells; the conversion in force is that of the last matching rule that sets one. states = cases, transitions = transactions compared with RefImport (tree + text), validated = cases in which every judged value had exactly one acceptable answer",
     assumptions: &[
         "okane's ledger parser is trusted to read the printed text back (C05/C15 decide that); report::process is trusted as the book-keeping referee of the end-to-end clause (C01/C02 decide that)",
         "DON'T-CARE: the counter-posting value of a row with a non-zero charge when no statement-supplied secondary amount exists (either 'opposite amount' or 'opposite amount net of the charge' is accepted); existence and rate of the charge posting; the sign of the balance assertion for a liability account; order of postings inside a transaction; payee/account of the counter-posting",
@@ -111,6 +111,37 @@ const DIM_NAMES: [&str; 13] = ["layout", "delimiter", "skip", "date", "credit-de
 #[derive(Clone, Copy, Debug)]
 struct Cfg {
     choice: [u8; 13],
+    /// the configuration is written as k nested fragments (None: one document)
+    layer: Option<Layer>,
+    /// a list of 2-3 rewrite rules instead of the single rule of dimension 12
+    stack: Option<Stack>,
+}
+
+/// The same effective configuration written as k = 2 or 3 documents whose `path`s all occur in the source path
+/// (`c16stmt` < `c16stmt.` < `c16stmt.csv`, merged shortest first; DOC import.ja.md: "rewrite is appended, everything else is
+/// overwritten") plus a non-matching document full of wrong values. For each of the four attributes that decide signs,
+/// commodities and the account posting, `masks[a]` says which levels set it (bit 0 = outermost): the most specific
+/// level that sets it carries the TRUE value, every less specific one a DECOY (opposite account type, commodity JPY,
+/// account Assets:Decoy, a format with another date format and column mapping).
+#[derive(Clone, Copy, Debug)]
+struct Layer {
+    k: u8,
+    /// 0 account_type, 1 commodity, 2 account (+ operator), 3 format
+    masks: [u8; 4],
+}
+const LAYER_ATTRS: [&str; 4] = ["account_type", "commodity", "account", "format"];
+
+#[derive(Clone, Copy, Debug)]
+struct RuleDef {
+    /// matcher `^xfer` (matches the xfer rows) or `^nomatch`
+    matches: bool,
+    conv: Option<Spec>,
+    account: bool,
+}
+#[derive(Clone, Copy, Debug)]
+struct Stack {
+    n: u8,
+    rules: [RuleDef; 3],
 }
 
 impl Cfg {
@@ -149,11 +180,16 @@ impl Cfg {
     }
     /// conversion carried by the rewrite rule `payee: ^xfer` (None: no rule)
     fn rule_conv(&self) -> Option<Spec> {
+        if let Some(st) = &self.stack {
+            // DOC import.ja.md: several matching rules are applied in list order, later ones override; a rule that does not
+            // set a field leaves it as it is. So: the conversion of the LAST matching rule that carries one.
+            return st.rules[..st.n as usize].iter().filter(|r| r.matches).filter_map(|r| r.conv).last();
+        }
         RULES[self.choice[12] as usize]
     }
     /// rate and secondary_amount columns exist
     fn conv_cols(&self) -> bool {
-        self.default_conv().is_some() || self.rule_conv().is_some()
+        self.default_conv().is_some() || self.rule_conv().is_some() || self.stack.is_some()
     }
     /// the secondary_commodity column exists (otherwise an enabled rule names the commodity itself)
     fn sec_ccy_col(&self) -> bool {
@@ -170,6 +206,9 @@ impl Cfg {
     }
     /// coarse name of the conversion configuration (classes, whole-file signatures)
     fn conv_name(&self) -> String {
+        if self.stack.is_some() {
+            return "rule-stack".into();
+        }
         match (self.default_conv(), self.rule_conv()) {
             (None, None) => "noconv".into(),
             (Some(d), None) => format!("default-{}", d.base_name()),
@@ -195,15 +234,32 @@ impl Cfg {
     }
     fn describe(&self) -> String {
         let v: Vec<String> = self.choice.iter().enumerate().filter(|(_, c)| **c != 0).map(|(i, c)| if DIMS[i] == 2 { DIM_NAMES[i].to_string() } else if i == 9 { format!("default-conv={}", self.default_conv().unwrap().name()) } else if i == 12 { format!("rule-conv={}", self.rule_conv().unwrap().name()) } else { format!("{}={}", DIM_NAMES[i], c) }).collect();
+        let mut v = v;
+        if let Some(l) = &self.layer {
+            let lv = |m: u8| -> String { (0..l.k).filter(|i| m >> i & 1 == 1).map(|i| i.to_string()).collect::<Vec<_>>().join("") };
+            v.push(format!("{}-fragments[{}]", l.k, (0..4).map(|a| format!("{}@{}", LAYER_ATTRS[a], lv(l.masks[a]))).collect::<Vec<_>>().join(",")));
+        }
+        if let Some(st) = &self.stack {
+            let r: Vec<String> = st.rules[..st.n as usize].iter().map(|r| format!("{}{}{}", if r.matches { "xfer" } else { "nomatch" }, r.conv.map(|c| format!(":{}", c.name())).unwrap_or_default(), if r.account { ":acct" } else { "" })).collect();
+            v.push(format!("rules[{}]", r.join(" ; ")));
+        }
         if v.is_empty() {
             "default".into()
         } else {
             v.join("+")
         }
     }
+    /// which extra family the configuration belongs to (suffix of signatures)
+    fn family(&self) -> &'static str {
+        match (self.layer.is_some(), self.stack.is_some()) {
+            (true, _) => "+fragments",
+            (_, true) => "+rule-list",
+            _ => "",
+        }
+    }
     /// coarse shape used in violation signatures
     fn value_shape(&self) -> String {
-        format!("{}-{}", if self.crdr() { "credit/debit" } else { "amount" }, if self.liability() { "liability" } else { "asset" })
+        format!("{}-{}{}", if self.crdr() { "credit/debit" } else { "amount" }, if self.liability() { "liability" } else { "asset" }, self.family())
     }
 }
 
@@ -211,7 +267,7 @@ impl Cfg {
 fn configs(d: usize) -> Vec<Cfg> {
     fn rec(pos: usize, left: usize, cur: &mut [u8; 13], out: &mut Vec<Cfg>) {
         if pos == DIMS.len() {
-            out.push(Cfg { choice: *cur });
+            out.push(Cfg { choice: *cur, layer: None, stack: None });
             return;
         }
         cur[pos] = 0;
@@ -272,23 +328,49 @@ fn columns(cfg: &Cfg) -> Vec<(&'static str, &'static str)> {
     v
 }
 
-fn config_yaml(cfg: &Cfg) -> String {
-    let mut s = String::new();
-    s.push_str("path: c16stmt\nencoding: UTF-8\n");
-    s.push_str(&format!("account: \"{}\"\n", cfg.account()));
-    s.push_str(&format!("account_type: {}\n", if cfg.liability() { "liability" } else { "asset" }));
-    if cfg.fee_col() {
-        s.push_str("operator: Bank Fee Desk\n");
+fn rule_yaml(cfg: &Cfg, matcher: &str, account: bool, conv: Option<Spec>) -> String {
+    let mut s = format!("  - matcher:\n      payee: \"{}\"\n", matcher);
+    if account {
+        s.push_str("    account: Assets:Wire\n");
     }
-    let default_spec = cfg.default_conv().map(|d| d.yaml()).unwrap_or_default();
-    if default_spec.is_empty() {
-        s.push_str(&format!("commodity: {}\n", PRIMARY));
-    } else {
-        s.push_str(&format!("commodity:\n  primary: {}\n  conversion:\n", PRIMARY));
-        for l in &default_spec {
-            s.push_str(&format!("    {}\n", l));
+    if let Some(r) = conv {
+        s.push_str("    conversion:\n");
+        if !cfg.sec_ccy_col() && !r.disabled && !r.named {
+            s.push_str(&format!("      commodity: {}\n", SECONDARY));
+        }
+        for l in r.yaml() {
+            s.push_str(&format!("      {}\n", l));
         }
     }
+    s
+}
+
+/// the pieces of the configuration document
+struct Pieces {
+    account_type: String,
+    commodity: String,
+    account: String,
+    format: String,
+    rewrite: String,
+}
+
+fn config_pieces(cfg: &Cfg) -> Pieces {
+    let account_type = format!("account_type: {}\n", if cfg.liability() { "liability" } else { "asset" });
+    let mut account = format!("account: \"{}\"\n", cfg.account());
+    if cfg.fee_col() {
+        account.push_str("operator: Bank Fee Desk\n");
+    }
+    let mut commodity = String::new();
+    let default_spec = cfg.default_conv().map(|d| d.yaml()).unwrap_or_default();
+    if default_spec.is_empty() {
+        commodity.push_str(&format!("commodity: {}\n", PRIMARY));
+    } else {
+        commodity.push_str(&format!("commodity:\n  primary: {}\n  conversion:\n", PRIMARY));
+        for l in &default_spec {
+            commodity.push_str(&format!("    {}\n", l));
+        }
+    }
+    let mut s = String::new();
     s.push_str("format:\n");
     s.push_str(&format!("  date: \"{}\"\n", cfg.datefmt()));
     match cfg.delim() {
@@ -319,16 +401,113 @@ fn config_yaml(cfg: &Cfg) -> String {
             }
         }
     }
-    if let Some(r) = cfg.rule_conv() {
-        s.push_str("rewrite:\n  - matcher:\n      payee: \"^xfer\"\n    account: Assets:Wire\n    conversion:\n");
-        if !cfg.sec_ccy_col() && !r.disabled && !r.named {
-            s.push_str(&format!("      commodity: {}\n", SECONDARY));
+    let mut rewrite = String::new();
+    if let Some(st) = &cfg.stack {
+        rewrite.push_str("rewrite:\n");
+        for r in &st.rules[..st.n as usize] {
+            rewrite.push_str(&rule_yaml(cfg, if r.matches { "^xfer" } else { "^nomatch" }, r.account, r.conv));
         }
-        for l in r.yaml() {
-            s.push_str(&format!("      {}\n", l));
+    } else if let Some(r) = cfg.rule_conv() {
+        rewrite.push_str("rewrite:\n");
+        rewrite.push_str(&rule_yaml(cfg, "^xfer", true, Some(r)));
+    }
+    Pieces { account_type, commodity, account, format: s, rewrite }
+}
+
+const DECOY_FORMAT: &str = "format:\n  date: \"%Y%m%d\"\n  fields:\n    date: 2\n    payee: 1\n    amount: 3\n";
+
+fn config_yaml(cfg: &Cfg) -> String {
+    let p = config_pieces(cfg);
+    let layer = match &cfg.layer {
+        None => return format!("path: c16stmt\nencoding: UTF-8\n{}{}{}{}{}", p.account, p.account_type, p.commodity, p.format, p.rewrite),
+        Some(l) => *l,
+    };
+    let decoy_type = format!("account_type: {}\n", if cfg.liability() { "asset" } else { "liability" });
+    let truth = [&p.account_type, &p.commodity, &p.account, &p.format];
+    let decoy: [String; 4] = [decoy_type.clone(), "commodity: JPY\n".to_string(), "account: \"Assets:Decoy\"\noperator: Decoy Desk\n".to_string(), DECOY_FORMAT.to_string()];
+    // a document that does not match the source path, full of wrong values, listed first
+    let mut s = format!("path: nomatch/\nencoding: Shift_JIS\n{}{}{}{}---\n", decoy[2], decoy_type, decoy[1], decoy[3]);
+    let paths = if layer.k == 2 { vec!["c16stmt", "c16stmt.csv"] } else { vec!["c16stmt", "c16stmt.", "c16stmt.csv"] };
+    // documents are listed most specific first, so list order and merge order differ
+    for level in (0..layer.k as usize).rev() {
+        s.push_str(&format!("path: {}\n", paths[level]));
+        if level == 0 {
+            s.push_str("encoding: UTF-8\n");
+        }
+        for a in 0..4 {
+            let m = layer.masks[a];
+            if m >> level & 1 == 1 {
+                let is_top = m >> (level + 1) == 0;
+                s.push_str(if is_top { truth[a] } else { &decoy[a] });
+            }
+        }
+        if level == layer.k as usize - 1 {
+            s.push_str(&p.rewrite);
+        }
+        if level > 0 {
+            s.push_str("---\n");
         }
     }
     s
+}
+
+/// All layerings explored: k = 2: every assignment of a non-empty level set to each of the 4 attributes (3^4 = 81);
+/// k = 3: every assignment in which at most `d3` attributes differ from "innermost level only" (7 level sets each).
+fn layerings(d3: usize) -> Vec<Layer> {
+    let mut v = vec![];
+    for a in 1..4u8 {
+        for b in 1..4u8 {
+            for c in 1..4u8 {
+                for d in 1..4u8 {
+                    v.push(Layer { k: 2, masks: [a, b, c, d] });
+                }
+            }
+        }
+    }
+    const INNER: u8 = 0b100;
+    for a in 1..8u8 {
+        for b in 1..8u8 {
+            for c in 1..8u8 {
+                for d in 1..8u8 {
+                    let m = [a, b, c, d];
+                    if m.iter().filter(|x| **x != INNER).count() <= d3 {
+                        v.push(Layer { k: 3, masks: m });
+                    }
+                }
+            }
+        }
+    }
+    v
+}
+
+/// All rule lists explored: length 2 over matcher {^xfer, ^nomatch} x conversion {none, sec/compute, pri/extract, disabled} x
+/// account {unset, set} (16^2 = 256); length 3 over matcher x conversion with the account set on the first rule (8^3 = 512).
+fn rule_stacks() -> Vec<Stack> {
+    let convs = [None, RULES[1], RULES[2], RULES[3]];
+    let mut r2 = vec![];
+    let mut r3 = vec![];
+    for m in [true, false] {
+        for c in convs {
+            r3.push(RuleDef { matches: m, conv: c, account: false });
+            for a in [false, true] {
+                r2.push(RuleDef { matches: m, conv: c, account: a });
+            }
+        }
+    }
+    let mut v = vec![];
+    for a in &r2 {
+        for b in &r2 {
+            v.push(Stack { n: 2, rules: [*a, *b, *b] });
+        }
+    }
+    for a in &r3 {
+        for b in &r3 {
+            for c in &r3 {
+                v.push(Stack { n: 3, rules: [RuleDef { account: true, ..*a }, *b, *c] });
+            }
+        }
+    }
+    v
 }
 
 // ------------------------------------------------------------------------------------------
@@ -890,7 +1069,7 @@ fn judge(via: &str, cfg: &Cfg, st: &RefStatement, got: &[ObsTxn]) -> Result<(), 
     }
     for (r, g) in st.rows.iter().zip(got) {
         let shape = format!("{}/{}", cfg.value_shape(), r.letter.name());
-        let convshape = format!("{}/{}", r.conv_name, r.letter.name());
+        let convshape = format!("{}{}/{}", r.conv_name, cfg.family(), r.letter.name());
         let ctx = |what: &str| format!("row '{}': {}; imported: {}", r.id, what, show_obs(g));
         let acct: Vec<&ObsPost> = g.posts.iter().filter(|p| p.account == cfg.account()).collect();
         let fees: Vec<&ObsPost> = g.posts.iter().filter(|p| p.account == FEE_ACCOUNT).collect();
@@ -985,41 +1164,52 @@ fn judge(via: &str, cfg: &Cfg, st: &RefStatement, got: &[ObsTxn]) -> Result<(), 
 /// Creating or re-writing a file costs 1.5-3 ms on the scratch file system (ext4 allocates at close when a file
 /// is replaced by truncation), 10x everything else in a case; so where the kernel offers it the statement
 /// lives in an anonymous memory file and `c16stmt.csv` is a symbolic link to it (/proc/self/fd/N).
-struct Files {
-    dir: PathBuf,
-    written_cfg: Option<usize>,
-    source: PathBuf,
+struct MemFile {
+    path: PathBuf,
     mem: Option<std::fs::File>,
+}
+
+impl MemFile {
+    fn new(dir: &std::path::Path, name: &str) -> MemFile {
+        use std::os::unix::io::FromRawFd;
+        let path = dir.join(name);
+        let _ = std::fs::remove_file(&path);
+        let cname = std::ffi::CString::new("c16").unwrap();
+        let fd = unsafe { libc::memfd_create(cname.as_ptr(), 0) };
+        let mut mem = None;
+        if fd >= 0 {
+            let f = unsafe { std::fs::File::from_raw_fd(fd) };
+            if std::os::unix::fs::symlink(format!("/proc/self/fd/{}", fd), &path).is_ok() && std::fs::File::open(&path).is_ok() {
+                mem = Some(f);
+            } else {
+                let _ = std::fs::remove_file(&path);
+            }
+        }
+        MemFile { path, mem }
+    }
+    fn put(&self, text: &str) {
+        use std::os::unix::fs::FileExt;
+        match &self.mem {
+            Some(f) => {
+                f.set_len(0).expect("scratch file");
+                f.write_all_at(text.as_bytes(), 0).expect("scratch file");
+            }
+            None => std::fs::write(&self.path, text).expect("scratch file"),
+        }
+    }
+}
+
+struct Files {
+    /// id of the configuration currently in `config`
+    written_cfg: Option<usize>,
+    source: MemFile,
+    config: MemFile,
 }
 
 impl Files {
     fn new() -> Files {
-        use std::os::unix::io::FromRawFd;
         let dir = oka::scratch_dir("c16");
-        let source = dir.join("c16stmt.csv");
-        let _ = std::fs::remove_file(&source);
-        let name = std::ffi::CString::new("c16stmt").unwrap();
-        let fd = unsafe { libc::memfd_create(name.as_ptr(), 0) };
-        let mut mem = None;
-        if fd >= 0 {
-            let f = unsafe { std::fs::File::from_raw_fd(fd) };
-            if std::os::unix::fs::symlink(format!("/proc/self/fd/{}", fd), &source).is_ok() && std::fs::File::open(&source).is_ok() {
-                mem = Some(f);
-            } else {
-                let _ = std::fs::remove_file(&source);
-            }
-        }
-        Files { dir, written_cfg: None, source, mem }
-    }
-    fn put_statement(&self, csv: &str) {
-        use std::os::unix::fs::FileExt;
-        match &self.mem {
-            Some(f) => {
-                f.set_len(0).expect("scratch csv");
-                f.write_all_at(csv.as_bytes(), 0).expect("scratch csv");
-            }
-            None => std::fs::write(&self.source, csv).expect("scratch csv"),
-        }
+        Files { written_cfg: None, source: MemFile::new(&dir, "c16stmt.csv"), config: MemFile::new(&dir, "c16config.yml") }
     }
 }
 
@@ -1044,11 +1234,10 @@ fn import_tree(entry: &icfg::ConfigEntry, csv: &str) -> Result<Vec<ObsTxn>, Stri
     Ok(out)
 }
 
-fn import_text(files: &Files, cfg_index: usize, csv: &str) -> Result<String, String> {
-    let cfg_path = files.dir.join(format!("cfg{}.yml", cfg_index));
-    files.put_statement(csv);
+fn import_text(files: &Files, csv: &str) -> Result<String, String> {
+    files.source.put(csv);
     let mut out: Vec<u8> = vec![];
-    okane::cmd::ImportCmd { config: cfg_path, source: files.source.clone() }.run(&mut out).map_err(|e| format!("ImportCmd: {}", err_chain(&e)))?;
+    okane::cmd::ImportCmd { config: files.config.path.clone(), source: files.source.path.clone() }.run(&mut out).map_err(|e| format!("ImportCmd: {}", err_chain(&e)))?;
     String::from_utf8(out).map_err(|e| format!("output not UTF-8: {}", e))
 }
 
@@ -1078,7 +1267,7 @@ fn first_line(s: &str) -> String {
     s.lines().filter(|l| !l.trim().is_empty()).take(3).collect::<Vec<_>>().join(" / ")
 }
 
-fn run_case(cfg: &Cfg, cfg_index: usize, entry: &icfg::ConfigEntry, files: &Files, st: &RefStatement, csv: &str, transitions: &mut u64, validated: &mut u64) -> Outcome {
+fn run_case(cfg: &Cfg, _cfg_index: usize, entry: &icfg::ConfigEntry, files: &Files, st: &RefStatement, csv: &str, transitions: &mut u64, validated: &mut u64) -> Outcome {
     let shape_all = {
         let mut fl: Vec<&str> = vec![];
         if st.rows.iter().any(|r| r.fee.is_some()) {
@@ -1115,7 +1304,7 @@ fn run_case(cfg: &Cfg, cfg_index: usize, entry: &icfg::ConfigEntry, files: &File
         return Outcome::violation(sig, detail);
     }
     // (2) printed text through the command
-    let text = match import_text(files, cfg_index, csv) {
+    let text = match import_text(files, csv) {
         Ok(t) => t,
         Err(e) => return Outcome::violation(format!("text/import-failed/{}/{}", cfg.conv_name(), shape_all), format!("ImportCmd failed on a statement the library imported: {}", e)),
     };
@@ -1215,25 +1404,73 @@ fn one_case(ctx: &mut Ctx, cfg: &Cfg, ci: usize, entry: &icfg::ConfigEntry, file
     ctx.count("validated", validated);
 }
 
+/// Lazily loaded real ConfigEntry + configuration file of one configuration.
+struct Loaded<'a> {
+    id: usize,
+    cfg: &'a Cfg,
+    yaml: String,
+    entry: Option<icfg::ConfigEntry>,
+}
+
+impl<'a> Loaded<'a> {
+    fn new(id: usize, cfg: &'a Cfg) -> Loaded<'a> {
+        // the YAML text is rendered only when a case of this configuration belongs to this worker
+        Loaded { id, cfg, yaml: String::new(), entry: None }
+    }
+    fn prepare(&mut self, files: &mut Files) {
+        if self.yaml.is_empty() {
+            self.yaml = config_yaml(self.cfg);
+        }
+        if self.entry.is_none() {
+            let set = icfg::load_from_yaml(self.yaml.as_bytes()).unwrap_or_else(|e| panic!("harness bug: configuration does not load: {}\n{}", err_chain(&e), self.yaml));
+            // a ConfigSet that cannot be resolved is a verdict about okane's merge, not a harness failure: leave entry empty
+            if let Ok(Some(e)) = set.select(std::path::Path::new("/x/c16stmt.csv")) {
+                self.entry = Some(e);
+            }
+        }
+        if files.written_cfg != Some(self.id) {
+            files.config.put(&self.yaml);
+            files.written_cfg = Some(self.id);
+        }
+    }
+    /// run one statement (letters + same-day flags + date-less lines) if the case belongs to this worker
+    fn statement(&mut self, ctx: &mut Ctx, files: &mut Files, letters: &[Letter], same: &[bool], dateless: &[(usize, u8)]) {
+        if !ctx.next_is_mine() {
+            ctx.skip_cases(1);
+            return;
+        }
+        self.prepare(files);
+        let mut st = ref_import(self.cfg, letters, same);
+        st.dateless = dateless.to_vec();
+        match self.entry.as_ref() {
+            Some(e) => one_case(ctx, self.cfg, self.id, e, files, &self.yaml, st),
+            None => {
+                let (cfg, yaml) = (self.cfg, &self.yaml);
+                ctx.case(|| format!("config [{}]\n--- config\n{}", cfg.describe(), yaml), || Outcome::violation(format!("config/not-resolved/{}", if cfg.layer.is_some() { "fragments" } else { "single" }), "a complete configuration (every mandatory attribute set by some matching fragment) was not resolved for the source path"));
+            }
+        }
+    }
+}
+
 fn run(ctx: &mut Ctx) {
     let d = ctx.tier.pick(2usize, 3usize);
-    let ctx_tier_is_thorough = ctx.tier.pick(false, true);
+    let thorough = ctx.tier.pick(false, true);
     // rows per statement: <= 3; thorough: <= 4 for configurations with <= 1 deviation (the full product
     // d<=3 x n<=4 is > 20 M imports, beyond the 10-minute budget)
     let rows_for = |c: &Cfg| -> u32 {
-        match ctx_tier_is_thorough {
+        match thorough {
             true if c.deviations() <= 1 => 4,
             _ => 3,
         }
     };
+    // date-less lines are explored for configurations with <= 1 deviation, and with 2 deviations when one of them is
+    // row_order=new_to_old (thorough: all configurations with <= 2 deviations)
+    let dateless_for = |c: &Cfg| -> bool { c.deviations() <= 1 || (c.deviations() == 2 && (c.new_to_old() || thorough)) };
     let cfgs = configs(d);
     let mut files = Files::new();
     let mut total_statements = 0u64;
     let mut total_dateless = 0u64;
     let mut max_alpha = 0usize;
-    // date-less lines are explored for configurations with <= 1 deviation, and with 2 deviations when one of them is
-    // row_order=new_to_old (thorough: all configurations with <= 2 deviations)
-    let dateless_for = |c: &Cfg| -> bool { c.deviations() <= 1 || (c.deviations() == 2 && (c.new_to_old() || ctx_tier_is_thorough)) };
     for (ci, cfg) in cfgs.iter().enumerate() {
         let alpha = alphabet(cfg);
         max_alpha = max_alpha.max(alpha.len());
@@ -1241,29 +1478,15 @@ fn run(ctx: &mut Ctx) {
         let max_rows = rows_for(cfg);
         let n_stmt: u64 = (0..=max_rows).map(|n| statements_of_len(a, n)).sum();
         total_statements += n_stmt;
-        let yaml = config_yaml(cfg);
-        let mut entry: Option<icfg::ConfigEntry> = None;
-        let prepare = |entry: &mut Option<icfg::ConfigEntry>, files: &mut Files| {
-            if entry.is_none() {
-                let set = icfg::load_from_yaml(yaml.as_bytes()).unwrap_or_else(|e| panic!("harness bug: configuration does not load: {}\n{}", err_chain(&e), yaml));
-                let e = set.select(std::path::Path::new("/x/c16stmt.csv")).expect("harness bug: select").expect("harness bug: no matching configuration");
-                *entry = Some(e);
-            }
-            if files.written_cfg != Some(ci) {
-                std::fs::write(files.dir.join(format!("cfg{}.yml", ci)), &yaml).expect("scratch config");
-                files.written_cfg = Some(ci);
-            }
-        };
+        let mut loaded = Loaded::new(ci, cfg);
         for k in 0..n_stmt {
             if !ctx.next_is_mine() {
                 ctx.skip_cases(1);
                 continue;
             }
-            prepare(&mut entry, &mut files);
             let (li, same) = decode_statement(k, a, max_rows);
             let letters: Vec<Letter> = li.iter().map(|i| alpha[*i]).collect();
-            let st = ref_import(cfg, &letters, &same);
-            one_case(ctx, cfg, ci, entry.as_ref().unwrap(), &files, &yaml, st);
+            loaded.statement(ctx, &mut files, &letters, &same, &[]);
         }
         // date-less lines (blank / sub-total rows) at every position: statements over {credit, debit} only
         if !dateless_for(cfg) {
@@ -1280,13 +1503,51 @@ fn run(ctx: &mut Ctx) {
                         ctx.skip_cases(1);
                         continue;
                     }
-                    prepare(&mut entry, &mut files);
                     let (li, same) = decode_statement(offset + k, 2, max_rows);
                     let letters: Vec<Letter> = li.iter().map(|i| alpha[*i]).collect();
-                    let mut st = ref_import(cfg, &letters, &same);
-                    st.dateless = pat.clone();
-                    one_case(ctx, cfg, ci, entry.as_ref().unwrap(), &files, &yaml, st);
+                    loaded.statement(ctx, &mut files, &letters, &same, pat);
                 }
+            }
+        }
+    }
+    // ---- the configuration written as nested fragments: every layering x every one-row statement
+    let mut next_id = cfgs.len();
+    let lay = layerings(if thorough { 2 } else { 1 });
+    let mut total_layered = 0u64;
+    let mut layered_configs = 0u64;
+    for base in cfgs.iter().filter(|c| c.deviations() <= if thorough { 2 } else { 1 }) {
+        let alpha = alphabet(base);
+        for l in &lay {
+            let cfg = Cfg { layer: Some(*l), ..*base };
+            let mut loaded = Loaded::new(next_id, &cfg);
+            next_id += 1;
+            layered_configs += 1;
+            for letter in &alpha {
+                total_layered += 1;
+                loaded.statement(ctx, &mut files, &[*letter], &[false], &[]);
+            }
+        }
+    }
+    // ---- lists of two and three rewrite rules
+    let stacks = rule_stacks();
+    let mut total_stacked = 0u64;
+    let l0 = Letter { kind: Kind::Debit, other: false, bal: BalCell::Right, conv: true, fee: false, rule: true, noccy: false };
+    let x_debit = l0;
+    let x_credit = Letter { kind: Kind::Credit, ..l0 };
+    let cv_debit = Letter { rule: false, ..l0 };
+    let stack_statements: Vec<Vec<Letter>> = vec![vec![x_credit], vec![x_debit], vec![x_debit, x_credit], vec![cv_debit]];
+    let n_defaults = if thorough { DEFAULTS.len() } else { 2 };
+    for dflt in 0..n_defaults {
+        for st in &stacks {
+            let mut choice = [0u8; 13];
+            choice[9] = dflt as u8;
+            let cfg = Cfg { choice, layer: None, stack: Some(*st) };
+            let mut loaded = Loaded::new(next_id, &cfg);
+            next_id += 1;
+            for letters in &stack_statements {
+                total_stacked += 1;
+                let same = vec![false; letters.len()];
+                loaded.statement(ctx, &mut files, letters, &same, &[]);
             }
         }
     }
@@ -1297,6 +1558,11 @@ fn run(ctx: &mut Ctx) {
     ctx.fact("max_alphabet", max_alpha as u64);
     ctx.fact("config_x_statement", total_statements);
     ctx.fact("config_x_statement_x_dateless_pattern", total_dateless);
+    ctx.fact("layerings", lay.len() as u64);
+    ctx.fact("layered_configurations", layered_configs);
+    ctx.fact("layered_config_x_statement", total_layered);
+    ctx.fact("rule_lists", stacks.len() as u64);
+    ctx.fact("rule_list_config_x_statement", total_stacked);
     for k in 0..=d {
         ctx.fact(&format!("configurations_with_{}_deviations", k), cfgs.iter().filter(|c| c.deviations() == k).count() as u64);
     }
